@@ -19,6 +19,24 @@ pub struct OptCase {
     pub content: String,
 }
 
+/// contents that fit more than one option of the party-field families
+pub const AMBIGUOUS: &[&str] = &[
+    "DEUTDEFF",
+    "ACMECORP",
+    "PANASONICJP",
+    "/ACC123\nDEUTDEFF",
+    "/ACC123\nACMECORP",
+    "/ACC123\nJOHN DOE",
+    "1/JOHN DOE\n2/MAIN STREET",
+    "/ACC123\n1/JOHN DOE\n2/MAIN STREET",
+    "/ACC",
+    "JOHN DOE\nDEUTDEFFXXX",
+    "ACCOUNT123\nDEUTDEFF",
+    "/C/12345\nDEUTDEFF",
+    "/12345678\nCITIBANK\nNEW YORK",
+    "BARCLAYS\nLONDON",
+];
+
 pub fn generate(shard: usize, src: &mut Src) -> OptCase {
     let (fam, base, members) = FAMILIES[shard % FAMILIES.len()];
     let (_, conc) = members[src.below(members.len())];
@@ -197,12 +215,29 @@ pub fn msg_oracle(c: &MutCase, obs: &mut Obs) -> Vec<Violation> {
                 }
             }
         }
+        // the variant also survives the typed value's JSON form: JSON -> typed -> MT keeps every tag
+        if let Ok(b2) = (msg_ops(&c.mt).body_from_json)(&b.json) {
+            let (_, toks2) = tokenize(&b2.mt_string);
+            if toks2.len() == toks.len() {
+                for (a, o) in toks.iter().zip(toks2.iter()) {
+                    if a.tag != o.tag && a.tag[0..2] == o.tag[0..2] {
+                        out.push(viol(
+                            format!("C14|msg|MT{}|json:{}-became-{}", c.mt, a.tag, o.tag),
+                            format!(
+                                "field parsed as {} comes back from its JSON as {}:\n{}",
+                                a.tag, o.tag, text
+                            ),
+                        ));
+                    }
+                }
+            }
+        }
     }
     out
 }
 
 pub fn run(ctx: &Ctx) {
-    ctx.add_rule("field level: the 25 option families x (each letter of the family | a foreign letter | no letter) x contents valid for a member of the family (incl. deliberately ambiguous contents: BIC-shaped name lines, single slash-lines, account+BIC, numbered lines); message level: valid messages (all multi-option slots, every documented letter) and messages with one option letter replaced by a foreign one; non-trivial = content accepted by at least one member; distinct by (family, letter, content)");
+    ctx.add_rule("field level: the 25 option families x (each letter of the family | a foreign letter | no letter) x contents valid for a member of the family (incl. deliberately ambiguous contents: BIC-shaped name lines, single slash-lines, account+BIC, numbered lines); message level: valid messages (all multi-option slots, every documented letter), messages in which one multi-option slot carries a content that is valid for the option written and shaped like another option of its family, and messages with one option letter replaced by a foreign one; non-trivial = content accepted by at least one member; distinct by (family, letter, content)");
     let to_json = |c: &OptCase| serde_json::to_value(c).unwrap();
     ctx.run_generated(
         "family",
@@ -214,6 +249,53 @@ pub fn run(ctx: &Ctx) {
         &to_json,
     );
     let to_json2 = |c: &MutCase| serde_json::to_value(c).unwrap();
+    // a multi-option slot of a valid message gets a content that is valid for the option written AND
+    // shaped like another option of the family (BIC-shaped name line, account + BIC, numbered lines)
+    ctx.run_generated(
+        "message-ambiguous",
+        MSGS.len(),
+        ctx.n(1500, 30000),
+        1800,
+        &|sh, src: &mut Src| {
+            let mt = mt_of_shard(sh);
+            let m = gen_valid_msg(mt, src);
+            let mut toks = toks_of(&m);
+            let slots: Vec<usize> = m
+                .fields
+                .iter()
+                .enumerate()
+                .filter(|(_, f)| f.n_options >= 2)
+                .map(|(i, _)| i)
+                .collect();
+            let mut mutation = "valid".to_string();
+            if !slots.is_empty() {
+                let i = slots[src.below(slots.len())];
+                if let Some(sp) = crate::fieldkit::spec_of_tag(&toks[i].tag) {
+                    let fits: Vec<&str> = AMBIGUOUS
+                        .iter()
+                        .copied()
+                        .filter(|c| sp.g.verdict(c) == crate::spec::Verdict::MustAccept)
+                        .collect();
+                    if !fits.is_empty() {
+                        toks[i].content = fits[src.below(fits.len())].to_string();
+                        mutation = format!("ambiguous-content:{}", toks[i].tag);
+                    }
+                }
+            }
+            MutCase {
+                mt: mt.to_string(),
+                toks,
+                mutation,
+                tag: String::new(),
+                bad_content: false,
+                crlf: src.chance(1, 5),
+                wrapper: true,
+                envelope: false,
+            }
+        },
+        &msg_oracle,
+        &to_json2,
+    );
     ctx.run_generated(
         "message",
         MSGS.len(),
